@@ -83,6 +83,13 @@ func (fv *FV) assumeSpecG(st *State, e *Expr, env *Env, guard string, depth int)
 		}
 		st.qfacts = append(st.qfacts, tmp.qfacts...)
 		return
+	case e.Op == "old" && env.old != nil:
+		// old(A) as a hypothesis: A over the entry state, its quantified conjuncts registered too
+		n := *env
+		n.st = env.old
+		n.names = env.old.fr.names
+		fv.assumeSpecG(st, e.Args[0], &n, guard, depth+1)
+		return
 	case e.Op == "call":
 		if b := fv.expandPred(e); b != nil {
 			fv.assumeSpecG(st, b, env, guard, depth+1)
@@ -216,6 +223,12 @@ func (fv *FV) collectQ(tmp *State, e *Expr, env *Env, guard string, depth int) {
 			g = fmt.Sprintf("(and %s %s)", guard, a)
 		}
 		fv.collectQ(tmp, e.Args[1], env, g, depth+1)
+	case e.Op == "old" && env.old != nil:
+		// old(A): the quantified conjuncts of A, evaluated in the entry state
+		n := *env
+		n.st = env.old
+		n.names = env.old.fr.names
+		fv.collectQ(tmp, e.Args[0], &n, guard, depth+1)
 	case e.Op == "call":
 		if b := fv.expandPred(e); b != nil {
 			fv.collectQ(tmp, b, env, guard, depth+1)
